@@ -37,7 +37,7 @@ CLAIMS = {
             "no iteration over RandomState-hashed containers or other process-dependent sources; states are merged only after every consumed entry was vetted; tree equality of optimised/unoptimised parsers is not decided"),
     "C17": ("pairing rules in both directions (push↔HighlightStart, pop↔HighlightEnd), who-may-construct table for events, gates on Source emission, termination and HTML escaping (rustc MIR)", "§4 C17",
             "events are emitted exactly where the end-position stack changes; raw bytes reach the HTML only when escape-free; a reused renderer/parser is reset; injected layers parse only ranges produced by intersect_ranges, which re-clamps against every parent range; ordering across layers and local-reference colouring are not decided"),
-    "C16": ("must-pass-through gates over Clang CFGs of language.c / language.h: exact-match licence of name look-ups, loop ranges, table bounds, termination and skip conditions of the look-ahead iterator", "§10.8 C16",
+    "C16": ("must-pass-through gates over Clang CFGs of language.c / language.h (exact-match licence of name look-ups, loop ranges, table bounds, termination and skip conditions of the look-ahead iterator) and store-shape / per-iteration obligation rules over rustc MIR of node_types.rs and render.rs (merged claims only weaken, every contributing rule merged, aliases reuse symbols by published name)", "§10.8 C16",
             "symbol and field names are resolved only by exact match over the whole id range and id→name reads stay inside the tables; the look-ahead iterator stops only at the end of the row / group list and skips only empty entries; conformance to node-types.json and superset look-ahead sets (generated data) are not decided"),
     "C18": ("value-flow (expression provenance) rules over rustc MIR of tree-sitter-tags: which node and positions every Tag / per-line-cache field is computed from; gates on cache reuse, on dropping local names and on the line window bounds", "§10.7 C18",
             "range is the hull of tag and name ranges, span/line/UTF-16 columns are computed from the name node, the same-row cache stores and is used for consistent positions, the line window is clamped to the text; the numeric relations themselves (UTF-16 lengths, rows/columns) and doc text are not decided"),
@@ -88,7 +88,7 @@ def main():
                   "source_commits": [], "add_only": True},
         "engines": [
             {"name": "cfacts", "path": "engines/cfacts", "serves_properties": [c for c in CLAIMS], "kind_free_text": "LibTooling extractor: Clang AST + CFG of lib/src/lib.c with build.rs flags → JSON facts"},
-            {"name": "rsfacts", "path": "engines/rsfacts", "serves_properties": ["C19", "C20", "C15", "C17", "C18", "C01", "C13", "C14", "C07", "C10", "C11"], "kind_free_text": "rustc_private driver: MIR/HIR facts of the workspace crates → JSON facts"},
+            {"name": "rsfacts", "path": "engines/rsfacts", "serves_properties": ["C19", "C20", "C15", "C16", "C17", "C18", "C01", "C13", "C14", "C07", "C10", "C11"], "kind_free_text": "rustc_private driver: MIR/HIR facts of the workspace crates → JSON facts"},
             {"name": "rules", "path": "engines/rules", "serves_properties": [c for c in CLAIMS], "kind_free_text": "Python rule engine: patterns, path-sensitive CFG search with flag tracking, who-may/field/sibling rules; tables in props/"},
         ],
         "checks": checks,
